@@ -381,8 +381,11 @@ int main(int argc, char** argv) {
                 State sf = system.getDefaultState();
                 if (c.has("euler") && c["euler"].num()) matter.setUseEulerAngles(sf, true);
                 system.realizeModel(sf); setCoords(sf, c["q"], c["u"]);
-                for (int pass = 0; pass < 3; ++pass) {
+                for (int pass = 0; pass < 4; ++pass) {
                     const mj::Value& FE = pass ? c["felems2"] : c["felems"];
+                    if (pass == 3) {      // fourth pass: ONLY the coordinates change (time, parameters, speeds as they are): every pose-dependent law must follow
+                        setCoords(sf, c["q2"], c["u2"]);
+                    } else
                     if (pass == 2) {      // third pass: ONLY the speeds change (second parameter set stays): velocity-dependent laws must follow
                         for (int i = 0; i < N; ++i) for (int k = 0; k < mb[i + 1].getNumU(sf); ++k) mb[i + 1].setOneU(sf, k, c["u2"][i][k].dbl());
                     } else
@@ -406,7 +409,7 @@ int main(int argc, char** argv) {
                     }
                     system.realize(sf, Stage::Dynamics);
                     const Vector_<SpatialVec>& BF = system.getRigidBodyForces(sf, Stage::Dynamics); const Vector& MF = system.getMobilityForces(sf, Stage::Dynamics);
-                    js << (pass == 2 ? ",\"forces3\":{" : pass ? ",\"forces2\":{" : ",\"forces\":{") << "\"body\":[";
+                    js << (pass == 3 ? ",\"forces4\":{" : pass == 2 ? ",\"forces3\":{" : pass ? ",\"forces2\":{" : ",\"forces\":{") << "\"body\":[";
                     for (int i = 1; i <= N; ++i) { const SpatialVec& W = BF[mb[i].getMobilizedBodyIndex()]; js << (i > 1 ? "," : "") << "{\"t\":" << jv(W[0]) << ",\"f\":" << jv(W[1]) << "}"; }
                     js << "],\"mob\":["; for (int j = 0; j < nu; ++j) js << (j ? "," : "") << num(MF[j]);
                     js << "],\"pe2\":" << num(2 * system.calcPotentialEnergy(sf)) << ",\"power\":[";
@@ -480,6 +483,7 @@ int main(int argc, char** argv) {
                     for (int i = 0; i < N; ++i) for (int k = 0; k < mb[i + 1].getNumU(sc2); ++k) mb[i + 1].setOneU(sc2, k, c["u2"][i][k].dbl());
                     system.realize(sc2, Stage::Acceleration);
                     Vector bias2; matter.calcBiasForAccelerationConstraints(sc2, bias2);
+                    js << ",\"udotU2\":["; for (int j = 0; j < nu; ++j) js << (j ? "," : "") << num(sc2.getUDot()[j]); js << "]";
                     js << ",\"cbiasU2\":["; for (int r = 0; r < m; ++r) js << (r ? "," : "") << num(bias2[r]);
                     js << "],\"verrU2\":[";
                     bool first = true;
